@@ -577,10 +577,9 @@ class _PatchingASTWalker:
         if not isinstance(node, ast.If):
             return False
         offset = self.lines.get_line_start(node.lineno) + node.col_offset
-        word = self.source[offset : offset + 4]
-        # XXX: This is a bug; the offset does not point to the first
-        alt_word = self.source[offset - 5 : offset - 1]
-        return "elif" in (word, alt_word)
+        # since Python 3.8 the position of an ``elif`` If node is that of the
+        # ``elif`` keyword itself
+        return self.source[offset : offset + 4] == "elif"
 
     def _IfExp(self, node):
         return self._handle(node, [node.body, "if", node.test, "else", node.orelse])
